@@ -797,7 +797,8 @@ func danglingIndex(t *rapid.T, c *wasmenc.Module) ([]byte, string, bool) {
 	}
 	b := wasmenc.NewB()
 	kind := rapid.SampledFrom([]string{"ref.func+declare", "ref.func+declare", "ref.func+declare", "ref.func", "call", "global.get", "local.get", "br", "call_indirect-type", "call_indirect-table", "table.get", "elem.drop", "data.drop", "export", "start", "elem-item", "callee-type", "callee-type", "block-type", "block-type", "memop-no-memory", "memop-no-memory", "memop-no-memory", "padded-immediate", "padded-immediate", "elem-expr", "elem-expr", "elem-expr",
-		"if-noelse-type", "if-noelse-type", "if-noelse-type", "call_indirect-elemtype", "call_indirect-elemtype", "call_indirect-elemtype"}).Draw(t, "dangling")
+		"if-noelse-type", "if-noelse-type", "if-noelse-type", "call_indirect-elemtype", "call_indirect-elemtype", "call_indirect-elemtype",
+		"call_indirect-sigpair", "call_indirect-sigpair", "call_indirect-sigpair"}).Draw(t, "dangling")
 	valid := false
 	var dangleParams []byte
 	switch kind {
@@ -852,6 +853,76 @@ func danglingIndex(t *rapid.T, c *wasmenc.Module) ([]byte, string, bool) {
 				b.Drop()
 			}
 		}
+	case "call_indirect-sigpair":
+		// a valid module: slot 0 of a new funcref table holds a function of type A, the added
+		// function calls it indirectly with a type B that differs from A in exactly one parameter
+		// or result type (any pair of value types): the call must trap with a signature mismatch;
+		// if two distinct signatures were treated as one, the callee would run with another layout
+		vts := []byte{wasmenc.I32, wasmenc.I64, wasmenc.F32, wasmenc.F64, wasmenc.V128, wasmenc.FuncRef, wasmenc.ExternRef}
+		refish := []byte{wasmenc.V128, wasmenc.FuncRef, wasmenc.ExternRef, wasmenc.I64, wasmenc.F64}
+		var pa, ra []byte
+		for i, n := 0, rapid.IntRange(0, 3).Draw(t, "nparams"); i < n; i++ {
+			pa = append(pa, rapid.SampledFrom(vts).Draw(t, "pt"))
+		}
+		for i, n := 0, rapid.IntRange(0, 2).Draw(t, "nresults"); i < n; i++ {
+			ra = append(ra, rapid.SampledFrom(vts).Draw(t, "rt"))
+		}
+		if len(pa)+len(ra) == 0 {
+			pa = []byte{rapid.SampledFrom(refish).Draw(t, "pt")}
+		}
+		pb, rb := append([]byte{}, pa...), append([]byte{}, ra...)
+		pos := rapid.IntRange(0, len(pa)+len(ra)-1).Draw(t, "pos")
+		other := func(old byte) byte {
+			pool := vts
+			if rapid.Bool().Draw(t, "refish") {
+				pool = refish
+			}
+			for {
+				if v := rapid.SampledFrom(pool).Draw(t, "other"); v != old {
+					return v
+				}
+			}
+		}
+		if pos < len(pa) {
+			pb[pos] = other(pa[pos])
+		} else {
+			rb[pos-len(pa)] = other(ra[pos-len(pa)])
+		}
+		push := func(bb *wasmenc.B, ty byte) {
+			switch ty {
+			case wasmenc.I32:
+				bb.I32Const(7)
+			case wasmenc.I64:
+				bb.I64Const(7)
+			case wasmenc.F32:
+				bb.F32(7)
+			case wasmenc.F64:
+				bb.F64(7)
+			case wasmenc.V128:
+				bb.V128Const(7, 7)
+			default:
+				bb.RefNull(ty)
+			}
+		}
+		c.Types = append(c.Types, wasmenc.FuncType{P: pa, R: ra}, wasmenc.FuncType{P: pb, R: rb})
+		ta, tb := uint32(len(c.Types)-2), uint32(len(c.Types)-1)
+		body := wasmenc.NewB()
+		for _, ty := range ra {
+			push(body, ty)
+		}
+		c.Funcs = append(c.Funcs, wasmenc.Func{Type: ta, Body: body.Bytes()})
+		fa := nimp + uint32(len(c.Funcs)) - 1
+		c.Tables = append(append([][]byte{}, c.Tables...), wasmenc.TableType(wasmenc.FuncRef, 1, -1))
+		ti := impTables + uint32(len(c.Tables)) - 1
+		c.Elems = append(c.Elems, wasmenc.ActiveElemFuncsTable(ti, wasmenc.NewB().I32Const(0).Bytes(), []uint32{fa}))
+		for _, ty := range pb {
+			push(b, ty)
+		}
+		b.I32Const(0).CallIndirect(tb, ti)
+		for range rb {
+			b.Drop()
+		}
+		valid = true
 	case "call_indirect-elemtype":
 		// call_indirect through the last of several tables of drawn element types (valid exactly
 		// when that table holds funcref), after the caller's externref argument (a non-null host
@@ -1042,7 +1113,7 @@ func danglingIndex(t *rapid.T, c *wasmenc.Module) ([]byte, string, bool) {
 	}
 	c.Funcs = append(c.Funcs, wasmenc.Func{Type: uint32(len(c.Types) - 1), Body: b.Bytes()})
 	// first among the exports, so that it is executed when the module is accepted
-	c.Exports = append([]wasmenc.Export{{Name: "dangle", Kind: wasmenc.KFunc, Idx: nfuncs - 1}}, c.Exports...)
+	c.Exports = append([]wasmenc.Export{{Name: "dangle", Kind: wasmenc.KFunc, Idx: nimp + uint32(len(c.Funcs)) - 1}}, c.Exports...)
 	evid.Label("dangling:"+kind, 1)
 	return c.Encode(), fmt.Sprintf("sem-dangling-%s%+d", kind, k), valid
 }
